@@ -72,8 +72,8 @@ class FeatureIdStorage:
     def get_id(self, chr_id, feature, strand):
         feature_tuple = (chr_id, feature[0], feature[1], strand)
         if feature_tuple not in self.id_dict:
-            feature_id = self.id_distributor.increment()
-            self.id_dict[feature_tuple] = chr_id + ".%d" % feature_id
+            feature_id = chr_id + ".%d" % self.id_distributor.increment()
+            self.id_dict[feature_tuple] = feature_id
         else:
             feature_id =  self.id_dict[feature_tuple]
 
